@@ -519,6 +519,9 @@ fn recover(
         }
     }
 
+    // The replayed pages must be durable before the WAL, the only other copy of them, goes away.
+    ht_fd.sync_all()?;
+
     // Finally, we collapse the WAL file and fsync.
     writeout::truncate_wal(wal_fd, true)?;
 
